@@ -192,8 +192,8 @@ const LINK_TARGETS: [&str; 16] = ["/outside", "../../outside", "/", "..", "/etc"
 /// that extraction really reaches the second entry)
 fn link_game(i: u64) -> Option<C12Case> {
     let target = LINK_TARGETS[(i % 16) as usize];
-    let follow = (i / 16) % 10;
-    let deep = (i / 16 / 10) % 2 == 1;
+    let follow = (i / 16) % 13;
+    let deep = (i / 16 / 13) % 2 == 1;
     let dir = if deep { "/opt/app/" } else { "/" };
     let mk = |dir: &str, base: &str, mode: u16, linkto: &str, content: &[u8]| ModelFile { dir: dir.into(), base: base.into(), mode, mtime: 1, flags: 0, user: "root".into(), group: "root".into(), linkto: linkto.into(), content: content.to_vec() };
     let link = mk(dir, "link", 0o120777, target, target.as_bytes());
@@ -210,13 +210,17 @@ fn link_game(i: u64) -> Option<C12Case> {
         // the directory-name table, so the path really leads through the link
         7 => mk(dir, "link/pwned", 0o100644, "", b"through the link, one level"),
         8 => mk(dir, "link/dir/deep.txt", 0o100644, "", b"through the link, two levels"),
-        _ => mk(dir, "link/dir/inner.txt", 0o100644, "", b"overwrite a sentinel two levels below"),
+        9 => mk(dir, "link/dir/inner.txt", 0o100644, "", b"overwrite a sentinel two levels below"),
+        // the link's own path spelled un-normalised, as a directory entry (chmod target!)
+        10 => mk(dir, "link/", 0o040700, "", b""),
+        11 => mk(dir, "link/.", 0o040700, "", b""),
+        _ => mk(dir, "link//", 0o100600, "", b"regular file spelled with trailing slashes"),
     };
     let mut files = vec![mk(dir, "first", 0o100644, "", b"a regular file first"), link, second];
-    if i / 16 / 10 / 2 == 1 {
+    if i / 16 / 13 / 2 == 1 {
         files.push(mk(dir, "zlast", 0o100644, "", b"after the games"));
     }
-    if i >= 16 * 10 * 2 * 2 {
+    if i >= 16 * 13 * 2 * 2 {
         return None;
     }
     Some(C12Case::Hostile { files })
@@ -245,7 +249,7 @@ impl Property for C12 {
         vec![
             Phase::Random {
                 name: "built-trees",
-                cases: tier.pick(1_500, 30_000),
+                cases: tier.pick(1_500, 80_000),
                 strat: Arc::new(|| {
                     config_any(CfgParams { max_files: 8, sizes: size_small(), comp: comp_fast(), sign_prob: 0.0, file_kinds: true, force_large_prob: 0.1, rich_meta: false })
                         .prop_map(|mut c| {
@@ -255,8 +259,8 @@ impl Property for C12 {
                         .boxed()
                 }),
             },
-            Phase::Enumerate { name: "link-games", total: 16 * 10 * 2 * 2, exhaustive: true, gen: Arc::new(link_game) },
-            Phase::Random { name: "hostile", cases: tier.pick(4_000, 80_000), strat: Arc::new(|| hostile_files().prop_map(|files| C12Case::Hostile { files }).boxed()) },
+            Phase::Enumerate { name: "link-games", total: 16 * 13 * 2 * 2, exhaustive: true, gen: Arc::new(link_game) },
+            Phase::Random { name: "hostile", cases: tier.pick(4_000, 300_000), strat: Arc::new(|| hostile_files().prop_map(|files| C12Case::Hostile { files }).boxed()) },
         ]
     }
     fn check(&self, case: &C12Case) -> Outcome {
